@@ -38,6 +38,27 @@ import types
 import common
 import sched
 
+# the containers a let binds, from a literal of every shape and from expressions that are no literals; all changed in place by the body
+ACCUMULATE_LET = ('<dtml-let groups="{\'lo\': [], \'hi\': []}" pair="([], [0])" rows="[[], [\'r\']]" seen="[]" cnt="{}" deep="{\'a\': {\'b\': [[]]}}" '
+                  'mix="[[tag], []]" made="_.list((_.list(), _.dict()))">'
+                  '<dtml-in seq2><dtml-call "groups[rank > 1 and \'hi\' or \'lo\'].append(name)"><dtml-call "pair[0].append(rank)">'
+                  '<dtml-call "pair[1].insert(0, name)"><dtml-call "rows[rank % 2].append(name)"><dtml-call "seen.append(name)">'
+                  '<dtml-call "cnt.update({name: rank})"><dtml-call "deep[\'a\'][\'b\'][0].append(name)"><dtml-call "mix[1].append(rank)">'
+                  '<dtml-call "made[0].append(name)"><dtml-call "made[1].update({rank: tag})"></dtml-in>'
+                  '<dtml-var groups>/<dtml-var pair>/<dtml-var rows>/<dtml-var seen>/<dtml-var cnt>/<dtml-var deep>/<dtml-var mix>/<dtml-var made>'
+                  '</dtml-let>')
+# the same for the objects dtml-with pushes and dtml-in iterates over
+ACCUMULATE_WITH_IN = ('<dtml-with expr="{\'acc\': [], \'inner\': {\'n\': [], \'m\': ([],)}}" mapping><dtml-call "acc.append(tag)">'
+                      '<dtml-call "inner[\'n\'].append(num)"><dtml-call "inner[\'m\'][0].append(tag)"><dtml-var acc><dtml-var inner></dtml-with>|'
+                      '<dtml-in expr="[[1], [2, []]]"><dtml-call "_[\'sequence-item\'].append(tag)"><dtml-call "_[\'sequence-item\'][-2:][0]'
+                      ' == [] and _[\'sequence-item\'][1].append(num)"><dtml-var sequence-item></dtml-in>|'
+                      '<dtml-in expr="{\'k\': [], \'j\': [0]}.items()"><dtml-call "_[\'sequence-item\'].append(tag)"><dtml-var sequence-key>'
+                      '<dtml-var sequence-item></dtml-in>')
+
+GUARDED_REPEAT = ('<dtml-if "flag">A<dtml-var "tag + tag"></dtml-if>|<dtml-unless "flag">u</dtml-unless>|<dtml-let z="tag + tag" y="num * 2">'
+                  '<dtml-var z><dtml-var y></dtml-let>|<dtml-in "seq[:2]"><dtml-var "name + tag"></dtml-in><dtml-with "o">'
+                  '<dtml-var "name + tag"></dtml-with><dtml-if "num * 2 > 16">big</dtml-if>')
+
 TEMPLATES = {
     'sort_expr': '<dtml-in seq sort_expr="key"><dtml-var name></dtml-in>|<dtml-var tag>',
     'reverse_expr': '<dtml-in seq reverse_expr="rev"><dtml-var name></dtml-in>|<dtml-var tag>',
@@ -84,9 +105,16 @@ TEMPLATES = {
                '</dtml-with>|<dtml-var expr="seq[0].rank + num">|<dtml-let z="o.name"><dtml-var z></dtml-let>',
     # ---- the block tag that lives next to the package
     'tree': '<dtml-tree root sort=nid>[[<dtml-var nid><dtml-var tag>]]</dtml-tree>',
+    # ---- per-render VALUES that are objects: what an attribute expression builds (literal containers of every shape: flat, nested in
+    #      a dict / list / tuple, two levels deep; built by calls) is new for every rendering; the body changes it in place (the DTML
+    #      accumulate / group idiom) and prints it
+    'accumulate': ACCUMULATE_LET + '|' + ACCUMULATE_WITH_IN,
 }
 CALL = {'client-mapping': 'client'}
-GUARDED = ('guarded', 'u-guarded-expr', 'u-guarded-in')
+# for the processes that have been up for a while: expression texts no other template of this check has (nothing of it is compiled in the
+# process when the threads start), each text at two or more sites
+AGED = {'a-guarded-repeat': re.sub(r'"([^"]+)"', r'"(\1)"', GUARDED_REPEAT)}
+GUARDED = ('a-guarded-repeat', 'guarded', 'u-guarded-expr', 'u-guarded-in', 'u-guarded-accumulate')
 DEFAULTS = {'client-mapping': ({'dflt': 'D0', 'dflt2': 'D2', 'mkey': 'hidden'}, {'dflt': 'D1'})}
 OLD = ('sort_expr', 'reverse_expr', 'batch', 'if-let-with', 'try-raise', 'var-formats', 'sub', 'with-only', 'try-classes')
 
@@ -119,6 +147,9 @@ UNITS = {
     'u-tree': '<dtml-tree root>[[<dtml-var nid>]]</dtml-tree>',
     'u-guarded-expr': '<dtml-var expr="o.name + tag">',
     'u-guarded-in': '<dtml-in gseq skip_unauthorized><dtml-var name></dtml-in>',
+    'u-let-accumulate': ACCUMULATE_LET,
+    'u-with-in-accumulate': ACCUMULATE_WITH_IN,
+    'u-guarded-accumulate': ACCUMULATE_LET.replace('_.list((_.list(), _.dict()))', '[[], {}]'),
 }
 
 
@@ -736,7 +767,7 @@ class Runner:
 
 
 def source_of(name):
-    return TEMPLATES[name] if name in TEMPLATES else UNITS[name]
+    return TEMPLATES[name] if name in TEMPLATES else UNITS[name] if name in UNITS else AGED[name]
 
 
 def pack(res, rn, extra=None):
@@ -940,7 +971,8 @@ def work(job):
 
 
 def make_jobs(tier, r):
-    names = list(TEMPLATES)
+    # 'accumulate' (long): its two halves are one-tag templates of every tier; the whole one is swept in the thorough tier
+    names = [n for n in TEMPLATES if tier == 'thorough' or n != 'accumulate']
     race = set(['sort_expr', 'if-let-with', 'var-formats', 'client-mapping'] if tier == 'quick' else names)
     seeds = {n: r.randrange(10 ** 9) for n in names}
     jobs = []
@@ -997,6 +1029,173 @@ def explore(res, tier, have_driver, r):
     res.extra['per_render_shared_writes_line_by_line'] = {k: sorted(v) for k, v in sorted(writes.items())}
     rn.flush_model()
 
+# --------------------------------------------------------------------------- (e) a process that has been up for a while
+
+def in_child(fn, *args):
+    """fn(*args) in a forked child (whatever it does to the state of the process is gone afterwards); returns its (JSON) value"""
+    rd, wr = os.pipe()
+    pid = os.fork()
+    if pid == 0:
+        code = 0
+        try:
+            os.close(rd)
+            try:
+                data = json.dumps({'ok': fn(*args)})
+            except BaseException as e:  # noqa
+                import traceback
+                data = json.dumps({'error': '%s: %s\n%s' % (type(e).__name__, e, traceback.format_exc()[-1500:])})
+            with os.fdopen(wr, 'w') as f:
+                f.write(data)
+        except BaseException:  # noqa
+            code = 3
+        finally:
+            os._exit(code)
+    os.close(wr)
+    with os.fdopen(rd) as f:
+        data = f.read()
+    os.waitpid(pid, 0)
+    try:
+        return json.loads(data)
+    except ValueError:
+        return {'error': 'child ended without a result'}
+
+
+def age(first, n):
+    """n more templates of the guarded class, each with one expression text of its own, cooked and rendered once: what a process
+    has done that has been serving other templates for a while"""
+    G = guarded_class()
+    for j in range(first, first + n):
+        G('<dtml-var expr="num + %d">' % j)(num=1)
+    return n
+
+
+def containers_of_package():
+    """[(container, file of the module that owns it)]: the containers that hang directly off the package's modules and classes
+    (not off any template), and the name tables of those modules and classes themselves"""
+    root = trace_root()
+    out, seen = [], set()
+
+    def add(c, f):
+        if isinstance(c, (dict, list, set)) and id(c) not in seen:
+            seen.add(id(c))
+            out.append((c, f))
+    for mname, mod in sorted(sys.modules.items()):
+        f = getattr(mod, '__file__', None) or ''
+        if not f.startswith(root) or '/tests' in f[len(root):]:
+            continue
+        add(vars(mod), f)
+        for v in list(vars(mod).values()):
+            add(v, f)
+            if isinstance(v, type) and getattr(v, '__module__', None) == mname:
+                for w in list(vars(v).values()):
+                    add(w, f)
+    return out
+
+
+def detect_drops(limit):
+    """age the process template by template; -> [[number of templates rendered when some container of the package became SMALLER
+    (something the process had was dropped: a bounded cache, a table that is reset), what became smaller, file of the owning module]]"""
+    cs = containers_of_package()
+    sizes = [len(c) for c, _ in cs]
+    drops = []
+    for j in range(limit):
+        age(j, 1)
+        now = [len(c) for c, _ in cs]
+        for n, (a, b) in enumerate(zip(sizes, now)):
+            if b < a:
+                drops.append([j + 1, '%s of %d entries went down to %d' % (type(cs[n][0]).__name__, a, b), cs[n][1]])
+        sizes = now
+        if len(drops) >= 2:
+            break
+    return drops
+
+
+def aged_profile(name, i, owner):
+    """yield points of namespace i's FIRST rendering (template compiled, never rendered) in this process: those of frames holding a
+    compiled object — or, given the file of the module owning a container, the lines of that module (the code that sees the container)"""
+    pr = profile(name, source_of(name), i, ())
+    ks = set()
+    for k, (fn, _, held) in enumerate(pr.steps, 1):
+        if (fn == owner) if owner else (held - pr.generic):
+            ks.update((k - 1, k))
+    return [sorted(ks), len(pr.steps)]
+
+
+def aged_one(name, fill, a, b, k):
+    res = common.Result('C18')
+    rn = Runner(res, False)
+    rn.run(name, source_of(name), True, 2, [(0, k), (1, sched.INF), (0, sched.INF)], 'aged-process-first-renderings-1-preemption', idx=(a, b), warm=())
+    for f in res.oracle_fail:
+        f['case']['process_before'] = ('%d templates of the same class, each with an expression text of its own, cooked and rendered '
+                                       'once (c18.age(0, %d)); each schedule in a process of its own' % (fill, fill))
+    return res.oracle_fail
+
+
+def aged_runs(name, fill, a, b, stride, shard, nshards, owner):
+    """first renderings of two threads, one pre-emption, in a process aged by `fill` templates; each schedule starts from the same state of
+    the process (a child of the aged process)"""
+    age(0, fill)
+    out = in_child(aged_profile, name, a, owner)
+    if 'ok' not in out:
+        return [], ['aged profile %s fill=%d: %s' % (name, fill, out.get('error'))], 0
+    ks, n0 = out['ok']
+    # a strided sample (shard: where it starts) or the share of one of nshards workers
+    ks = ks[shard % stride::stride] if stride > 1 else ks[shard::nshards]
+    fails, errors, n = [], [], 0
+    for k in ks:
+        out = in_child(aged_one, name, fill, a, b, k)
+        n += 1
+        if 'ok' in out:
+            fails += out['ok']
+        else:
+            errors.append('aged run %s fill=%d k=%d: %s' % (name, fill, k, out.get('error')))
+        if len(fails) >= 3 or len(errors) >= 3:
+            break
+    return fails, errors, n
+
+
+def aged_task(args):
+    out = in_child(aged_runs, *args)         # the worker itself stays as it is
+    if 'ok' not in out:
+        return [], ['aged process %r: %s' % (args[:4], out.get('error'))], 0
+    return out['ok']
+
+
+def aged(res, tier, r):
+    """(e) The state of the PROCESS is shared by all renderings too.  A process that has compiled and rendered many other templates
+    before: the number of them is swept (template by template, in a child) while the sizes of all containers of the package are
+    watched; wherever something the process had is dropped (a bounded cache being emptied, a table being reset) the first renderings
+    of two threads are scheduled (single pre-emptions at every line of the module that owns the container, both orders) in processes
+    aged to 0..4 templates short of that point — plus, always, a strided sample of the same schedules in processes aged by a few sizes."""
+    import multiprocessing
+    quick = tier != 'thorough'
+    limit = 1500 if quick else 6000
+    out = in_child(detect_drops, limit)
+    if 'ok' not in out:
+        res.harness_errors.append('C18 aged process: %s' % out.get('error'))
+        return
+    drops = out['ok']
+    res.extra['aged_process'] = {'templates_rendered_while_watching': limit, 'containers_that_became_smaller': drops}
+    name = 'a-guarded-repeat'
+    tasks = []
+    nsh = 4
+    for fill in ((3, 260) if quick else (0, 3, 100, 260, 520, 1030, 2100)):
+        for a, b in ((1, 0), (0, 1)):
+            tasks.append((name, fill, a, b, 12 if quick else 2, r.randrange(12), 1, None))
+    for at, _, owner in drops[:1]:
+        for short in range(0, 5):
+            if at - 1 - short >= 0:
+                for a, b in ((1, 0), (0, 1)):
+                    tasks += [(name, at - 1 - short, a, b, 1, sh, nsh, owner) for sh in range(nsh)]
+    with multiprocessing.get_context('fork').Pool(min(len(tasks), max(8, min(16, os.cpu_count() or 8)))) as pool:
+        outs = pool.map(aged_task, tasks, chunksize=1)
+    for (fails, errors, n), task in zip(outs, tasks):
+        res.evaluations += n
+        res.count('schedule=aged-process-first-renderings-1-preemption', n)
+        res.count('aged-process fill=%d' % task[1], n)
+        res.oracle_fail += fails
+        res.harness_errors += errors
+
 
 def run(res, tier, have_driver):
     r = common.rng('C18')
@@ -1026,6 +1225,7 @@ def run(res, tier, have_driver):
                 'schedule without pre-emption (threads one after the other) == new template each.  non-trivial = every scheduled '
                 'run (distinct schedule)' % (len(TEMPLATES), len(UNITS)))
     monitor(res)
+    aged(res, tier, common.rng('C18-aged'))
     explore(res, tier, have_driver, r)
     res.nontrivial.add(('runs', res.evaluations))
     res.partial.append('the model\'s atomic steps are the shared accesses of String.__call__/cook at source-line granularity; '
